@@ -67,6 +67,8 @@ type FuncSpec struct {
 	AssumePre []*Clause   // modelling assumptions available inside the body only (not checked at call sites)
 	Pure      *Clause     // pure E: the function returns E (a function of parameters and captured variables)
 	EntryGhosts []*GhostAssign // ghost NAME = expr : ghost updates performed on entry of the body
+	ReturnGhosts []*GhostAssign // ghost_return NAME = expr : ghost updates performed at every return (results bound)
+	Implements []string // interface-method contract keys this function is checked to satisfy
 }
 
 type GhostAssign struct {
@@ -340,6 +342,18 @@ func (fs *FuncSpec) addClause(t, file string, ln int) error {
 		fs.UnreachableOK = n
 	case "releases":
 		fs.Releases = append(fs.Releases, strings.Fields(rest)...)
+	case "implements":
+		fs.Implements = append(fs.Implements, strings.Fields(rest)...)
+	case "ghost_return":
+		i := strings.Index(rest, "=")
+		if i < 0 {
+			return fmt.Errorf("ghost_return NAME = expr")
+		}
+		e, err := parseSpecExpr(strings.TrimSpace(rest[i+1:]))
+		if err != nil {
+			return err
+		}
+		fs.ReturnGhosts = append(fs.ReturnGhosts, &GhostAssign{Name: strings.TrimSpace(rest[:i]), E: e, Text: rest})
 	case "ghost":
 		i := strings.Index(rest, "=")
 		if i < 0 {
